@@ -6,6 +6,9 @@ import FeatherModel.Spec.CodeDenote
 import FeatherModel.Spec.ClassParse
 import FeatherModel.Model.FrameWrite
 import FeatherModel.Spec.FrameDenote
+import FeatherModel.Model.ClassWriteFull
+import FeatherModel.Model.ClassReadSexp
+import FeatherModel.Lemmas.ClassWriteFullDecide
 
 open Driver Sexp CodeWrite
 
@@ -835,6 +838,35 @@ def handleC02 (op : String) (args : List Sexp) : Option Ans :=
     -- full: read (write t) = t; partial: the same up to stack map frames (not written before 6210871) and empty tables
     let _ := (mode, b)
     pure (.ok (tag "pass"))
+  -- the whole writer: read the class with C01's reader model, write the tree with `ClassWriteFull.writeClass`
+  | "class-write", [b] => do
+    let b ← toBytes? b
+    pure (match ClassRead.read b with
+      | .ok (t, _) =>
+        (match ClassWriteFull.writeClass t with
+         | .ok out => .ok (blob out)
+         | .error .err => .err "e"
+         | .error .panic => .err "panic")
+      | .err => .ok (tag "unreadable")
+      | .crash s => .panic s.file)
+  -- `Thm.C02.class_write_read_partial` evaluated on the model, with its decidable domain `InWriterFragment`
+  | "oracle-class-write-read", [b] => do
+    let b ← toBytes? b
+    pure (match ClassRead.read b with
+      | .ok (t, _) =>
+        if ClassWriteFull.InWriterFragment t then
+          (match ClassWriteFull.writeClass t with
+           | .ok out =>
+             (match ClassRead.read out with
+              | .ok (raw, []) =>
+                (match raw.resolve with
+                 | some t' => if t'.toSexp.toStr == t.toSexp.toStr then .ok (tag "pass") else .ok (list [tag "fail", tag "differs"])
+                 | none => .ok (list [tag "fail", tag "dangling"]))
+              | _ => .ok (list [tag "fail", tag "reread"]))
+           | .error .err => .ok (tag "out-of-domain")
+           | .error .panic => .ok (list [tag "fail", tag "panic"]))
+        else .ok (tag "out-of-domain")
+      | _ => .ok (tag "out-of-domain"))
   | "model-attempts", [i] => do
     -- model only (debugging aid for the generators): number of attempts of the retry loop
     let xs ← toList? i
